@@ -772,9 +772,10 @@ HLgetdatainfo(int32 file_id, uint8 *buf, /* IN: special header info */
     int32    num_blocks,       /* number of blocks in each table */
         block_length,          /* length of each block */
         total_length,          /* total data length of the element */
-        accum_length;          /* accumulative length of actual data in blocks */
+        accum_length;          /* length of the element covered by the slots seen so far */
     int ii;
-    int ret_value = SUCCEED;
+    int first_block = TRUE; /* the next slot is the first one of the element */
+    int ret_value   = SUCCEED;
 
     (void)start_block; /*not used */
     /* Clear error stack */
@@ -808,61 +809,50 @@ HLgetdatainfo(int32 file_id, uint8 *buf, /* IN: special header info */
                                  num_data_blocks < info_count)) {
         uint16 next_ref = link_info->nextref; /* shortcut */
 
-        /* Get offset/length of blocks that actually point to a data elem,
-           until all blocks in this table with valid ref#s are processed or
-           the non-NULL arrays provided are full */
-        for (ii = 0; ii < num_blocks && link_info->block_list[ii].ref != 0 &&
+        /* Go through every slot of this table that lies inside the element,
+           until the non-NULL arrays provided are full.  A slot with ref# 0
+           inside the element is a block that was never written (a gap left
+           by seeking past the end): it has no location in the file but it
+           does stand for block_length bytes of the element */
+        for (ii = 0; ii < num_blocks && accum_length < total_length &&
                      (info_count == 0 || num_data_blocks < info_count);
              ii++) {
-            int32  offset, length;
             uint16 block_ref = link_info->block_list[ii].ref; /* shortcut */
+            int32  offset, length, slot_length, used;
 
-            /* If this block has a valid ref# then get the offset/length of
-               the data if they are requested, and increment the number of
-               data blocks */
-            if (block_ref != 0) {
-                if (offsetarray != NULL) {
-                    offset = Hoffset(file_id, DFTAG_LINKED, block_ref);
-                    if (offset == FAIL)
-                        HGOTO_ERROR(DFE_INTERNAL, FAIL);
-                    offsetarray[num_data_blocks] = offset;
-                }
-                if (lengtharray != NULL) {
-                    length = Hlength(file_id, DFTAG_LINKED, block_ref);
-                    if (length == FAIL)
-                        HGOTO_ERROR(DFE_INTERNAL, FAIL);
-
-                    /* Make sure to detect when the last block of the element is
-                       reached and calculate the len of the actual data in it */
-
-                    /* Continue accumulating data length if there is
-                       another block table coming */
-                    if (next_ref != 0)
-                        accum_length = accum_length + length;
-
-                    /* When no more block table following this one, i.e., this
-                       is the last block table in the element */
-                    else {
-                        /* if this is NOT the last block having data in the
-                           current table, continue accumulating */
-                        if (ii < num_blocks - 1 && link_info->block_list[ii + 1].ref != 0)
-                            accum_length = accum_length + length;
-
-                        /* else, i.e., this is the last block in the curr table,
-                              or the last block that points to actual data */
-                        else {
-                            /* then calculate the data's actual length when the
-                               length is the same as the default block length,
-                               because it might not be */
-                            if (length == block_length)
-                                length = total_length - accum_length;
-                        }
-                    }
-                    /* Record the actual data length in the current block */
-                    lengtharray[num_data_blocks] = length;
-                }
-                num_data_blocks++; /* count number of blocks with data */
+            if (block_ref == 0) {
+                accum_length += block_length;
+                first_block = FALSE;
+                continue;
             }
+
+            length = Hlength(file_id, DFTAG_LINKED, block_ref);
+            if (length == FAIL)
+                HGOTO_ERROR(DFE_INTERNAL, FAIL);
+
+            /* The first block of an element keeps the length of the data it
+               was made from, every other block stands for block_length bytes */
+            slot_length = first_block ? length : block_length;
+            first_block = FALSE;
+
+            /* The block holds only what is left of the element */
+            used = total_length - accum_length;
+            if (used > slot_length)
+                used = slot_length;
+            if (used > length)
+                used = length;
+
+            if (offsetarray != NULL) {
+                offset = Hoffset(file_id, DFTAG_LINKED, block_ref);
+                if (offset == FAIL)
+                    HGOTO_ERROR(DFE_INTERNAL, FAIL);
+                offsetarray[num_data_blocks] = offset;
+            }
+            if (lengtharray != NULL)
+                lengtharray[num_data_blocks] = used;
+
+            accum_length += slot_length;
+            num_data_blocks++; /* count number of blocks with data */
         } /* for each block in the current table */
 
         /* Free allocated memory before getting the next block table if
